@@ -80,9 +80,11 @@ def bytes_of(it, r):
         ref = v
         v = it.read(v.cell, v.path)
         n += 1
-    if isinstance(v, Arr):
+    if isinstance(v, (Arr, VecV)):
         off = ref.off if isinstance(ref, Ref) else 0
         ln = ref.len if isinstance(ref, Ref) and ref.len is not None else len(v.elems) - off
+        if not all(isinstance(e, Int) and e.is_conc() for e in v.elems[off:off + ln]):
+            return None
         return [e.val for e in v.elems[off:off + ln]]
     return None
 
@@ -157,14 +159,35 @@ class WriterOracles(Oracles):
                 return "\u0001<%s of %s returned %r>" % (tr, v.name, r_)
         return "\u0001<unclassified %r>" % (v,)
 
-    def emit(self, it, fa):
+    def emit(self, it, fa, target=None):
         s = ""
         for p in fa.parts:
             if p[0] == "lit":
                 s += p[1]
             else:
                 s += self.render_arg(it, p[1])
-        self.out.append(s)
+        self.put(it, s, target)
+
+    def put(self, it, text, target=None):
+        """text written through a writer: into the in-memory buffer when the writer IS one (a Vec<u8> / String the code assembles before
+        handing it on), otherwise to the captured output"""
+        buf = self.buffer_of(it, target)
+        if buf is None:
+            self.out.append(text)
+            return
+        r, v = buf
+        it.write(r.cell, r.path, VecV(list(v.elems) + [Int(8, False, val=b) for b in text.encode("utf-8")]))
+
+    def buffer_of(self, it, target):
+        r = target
+        n = 0
+        while isinstance(r, Ref) and n < 4:
+            v = it.read(r.cell, r.path)
+            if isinstance(v, VecV) and r.len is None and not r.off and all(isinstance(e, Int) for e in v.elems):
+                return r, v
+            r = v
+            n += 1
+        return None
 
     def on_call(self, it, fn, args, dest_ty, term, caller):
         path = fn.get("path", "")
@@ -207,16 +230,16 @@ class WriterOracles(Oracles):
         if name == "write_fmt" and (tr.endswith("io::Write") or tr.endswith("fmt::Write")):
             fa = args[1]
             if isinstance(fa, FmtArgs):
-                self.emit(it, fa)
+                self.emit(it, fa, args[0])
             else:
-                self.out.append("\u0001<unknown write>")
+                self.put(it, "\u0001<unknown write>", args[0])
             return Adt(RESULT, 0, [Tup([])])
         if name in ("write_all", "write_str") and len(args) == 2:
             b = bytes_of(it, args[1])
-            self.out.append(bytes(b).decode("utf-8", "replace") if b else "\u0001<unknown write>")
+            self.put(it, bytes(b).decode("utf-8", "replace") if b is not None else "\u0001<unknown write>", args[0])
             return Adt(RESULT, 0, [Tup([])])
         if path == "serde_json::to_writer":
-            self.out.append('{"v":[1,"x"]}')
+            self.put(it, '{"v":[1,"x"]}', args[0] if args else None)
             return Adt(RESULT, 0, [Tup([])])
         if path.startswith("std::fs::File") and name == "create":
             return Adt(RESULT, 0, [Opaque("File", {"file"})])
@@ -471,6 +494,16 @@ def serde_rules(F, rep, rule="C20.4", types=None):
             if not hit:
                 rep.violated(rule, key, "%s has no %s impl: it cannot be persisted" % (adt, tr), witness={"kind": "anchor-missing"})
             elif not d[hit[0]]:
+                if tr == "Deserialize":
+                    # a hand-written Deserialize of an owned type that asks the deserializer for BORROWED text / bytes only works with
+                    # deserializers that can lend from their input (from_str, from_slice): from_reader / from_value cannot, so a value the
+                    # serializer wrote is not always readable back
+                    borrowed = serde_borrowed_reads(F, adt)
+                    if borrowed:
+                        rep.violated(rule, key, "%s implements Deserialize by hand and reads %s (in %s): deserializers that cannot lend from their input "
+                                     "(serde_json::from_reader, from_value) fail with `expected a borrowed string`, so a serialized value cannot "
+                                     "always be read back" % (adt, borrowed[0][0], borrowed[0][1]), witness={"kind": "serde-borrowed"})
+                        continue
                 rep.inconclusive(rule, key, "%s implements %s by hand; the derive contract does not apply" % (adt, tr))
             else:
                 rep.holds(rule, key, "%s: %s is derived" % (adt, tr))
@@ -581,3 +614,32 @@ def serde_conversion(F, rep, rule, adt):
             rep.inconclusive(rule, key, "%s: %s" % (k, inc))
         else:
             rep.holds(rule, key, "%s is deserialised through %s: it accepts and rebuilds the serialized form of every string of %d..%d bases" % (adt, k, lens[0], lens[-1]))
+
+
+def serde_borrowed_reads(F, impl_key):
+    """calls `<&str as Deserialize>::deserialize` / `<&[u8] as Deserialize>::deserialize` reachable (within the crate) from the deserialize
+    method of the impl: [(what, in function)]"""
+    roots = [k for k, b in F.fns.items() if k.startswith("<" + impl_key) and "Deserialize" in k and k.endswith("::deserialize")]
+    seen, st, out = set(), list(roots), []
+    while st:
+        p_ = st.pop()
+        if p_ in seen or p_ not in F.fns:
+            continue
+        seen.add(p_)
+        b = F.fns[p_]
+        for bb in b["blocks"]:
+            t = bb["t"]
+            if t.get("k") == "call" and "const" in t["f"] and "fn" in t["f"]["const"]:
+                fr = t["f"]["const"]["fn"]
+                k = fr.get("key") or ""
+                m = re.match(r"^<&(?:'\w+ )?(str|\[u8\]) as [^>]*Deserialize<[^>]*>>::deserialize", k)
+                if m:
+                    out.append(("a borrowed &%s" % m.group(1), b["path"]))
+                for q in (fr.get("rpath"), fr.get("path")):
+                    if q and q in F.fns and q not in seen:
+                        st.append(q)
+            for s_ in bb["s"]:
+                rv = s_.get("rv") or {}
+                if rv.get("k") == "agg" and rv.get("ak") == "closure" and rv.get("closure") in F.fns:
+                    st.append(rv["closure"])
+    return out
